@@ -7,6 +7,7 @@ generated is evaluated by refmeson and judged (or excluded as undefined) on that
 """
 from __future__ import annotations
 
+import copy
 import typing as T
 
 from hypothesis import strategies as st
@@ -406,6 +407,13 @@ class Gen:
                     frag = 'o'
                 return ['meth', ['str', w, 's'], self.pick(['contains', 'startswith', 'endswith']), [[None, ['str', frag, 's']]]]
             if m == 2:
+                if self.chance(35):
+                    # array-valued elements: the needle is (a copy of) one of the haystack's own elements half of the time,
+                    # so that "contains an element that is itself an array" is decided both ways
+                    el = self.pick([INT, STR])
+                    elems = [self.e(ARR(el, None), 1) for _ in range(2 + self.i(2))]
+                    needle = copy.deepcopy(self.pick(elems)) if self.chance(55) else self.e(ARR(el, None), 1)
+                    return ['meth', ['arr', elems], 'contains', [[None, needle]]]
                 el = self.pick([INT, STR])
                 return ['meth', self.e(ARR(el, None), d - 1), 'contains', [[None, self.e(el, d - 1)]]]
             if m == 3:
